@@ -83,7 +83,7 @@ Definition pair_of (x : sx) : str * str := (sx_str (sx_nth 0 x), sx_str (sx_nth 
 Definition entry (orc : oracle) (cmd : str) (args : list sx) : option sx :=
   let a := arg args in
   if is_cmd cmd "hook_run" then
-    let C := if is (a 0%nat) "legacy" then legacy else if is (a 0%nat) "quiet" then quiet else if is (a 0%nat) "current" then current else head in
+    let C := if is (a 0%nat) "legacy" then legacy else if is (a 0%nat) "loud" then loud else if is (a 0%nat) "current" then current else head in
     Some (sx_of_result (hook_run C (faults_of (sx_list (a 1%nat))) (sx_str (a 2%nat)) (hin_of (a 3%nat))))
   else if is_cmd cmd "hook_nolog" then Some (sx_of_result (run_nolog (hin_of (a 0%nat))))
   else if is_cmd cmd "json_line" then Some (A (jline (map pair_of (sx_list (a 0%nat)))))
